@@ -213,6 +213,7 @@ var checks = []Check{
 			{Pkg: "proc/redis/hotkey", Scenarios: []string{"C19/counter", "C19/insert"}, Shards: 1, QuickS: 60, ThoroughS: 400},
 			{Pkg: "proc/redis/hotkey", Scenarios: []string{"C19/collector"}, Shards: 16, QuickS: 60, ThoroughS: 400},
 			{Pkg: "proc/redis/hotkey", Scenarios: []string{"C19/concurrent"}, Shards: 8, QuickS: 60, ThoroughS: 400},
+			{Pkg: "proc/redis", Scenarios: []string{"C19/hotkey-command"}, Shards: 7, QuickS: 60, ThoroughS: 120},
 			{Pkg: "proc/redis/hotkey", Scenarios: []string{"C19/collector-race"}, Race: true, Shards: 1, QuickS: 60, ThoroughS: 300},
 		},
 	},
@@ -245,6 +246,7 @@ var checks = []Check{
 			{Pkg: "host", Scenarios: []string{"C15/concurrent"}, Shards: 8, QuickS: 60, ThoroughS: 400},
 			{Pkg: "host", Scenarios: []string{"C15/set-race"}, Race: true, Shards: 1, QuickS: 60, ThoroughS: 300},
 			{Pkg: "proc/internal/hc", Scenarios: []string{"C15/hysteresis"}, Shards: 1, QuickS: 60, ThoroughS: 400},
+			{Pkg: "proc/internal/hc", Scenarios: []string{"C15/monitor-loop"}, Shards: 8, QuickS: 60, ThoroughS: 400},
 		},
 	},
 	{
